@@ -6,7 +6,7 @@ From HL7 Require Import Lib.Str Model.Ec Model.Result Model.Ref Model.Tree Model
      Model.MsgTree Model.Validate Model.Wf.
 From HL7 Require Import Gen.Params Gen.Tables.
 From HL7 Require Import Proofs.RoundTripStr Proofs.RoundTripCore Proofs.RoundTripSeg Proofs.RoundTripTables
-     Proofs.RoundTripSegTables Proofs.NoCrash Proofs.ValidateTotal.
+     Proofs.RoundTripSegTables Proofs.NoCrash Proofs.NoCrashTables Proofs.ValidateTotal.
 Import ListNotations.
 Open Scope bs_scope.
 
@@ -28,7 +28,7 @@ Definition grefb (good : list str) (r : sref) : bool :=
   end.
 Definition frowb (good : list str) (row : srow) : bool :=
   match row with
-  | SByName FIE n _ _ => opt_is_some (slookup n (t_fields t))
+  | SByName FIE n _ _ => true       (* resolves: Oblig/WfAll.v (seg_good) *)
   | SIn FIE n r _ _ => grefb good r && match slookup n (t_fields t) with Some (SLeaf _) | None => true | _ => false end
   | _ => false
   end.
@@ -73,11 +73,12 @@ Proof.
     intros row Hrow. apply crowb_sound. rewrite forallb_forall in Hf0. now apply Hf0.
 Qed.
 
-Lemma frowb_sound row : frowb ok_structs row = true -> frow t row.
+Lemma frowb_sound row : frowb ok_structs row = true -> row_ref t row <> None -> frow t row.
 Proof.
   destruct row as [[] n mn mx|[] n r mn mx|]; cbn [frowb]; try discriminate.
-  - destruct (slookup n (t_fields t)) as [r|] eqn:E; [|discriminate]. intros _. left. now exists n, mn, mx, r.
-  - intros H. apply andb_prop in H. destruct H as [H1 H2]. right. exists n, r, mn, mx.
+  - intros _. cbn [row_ref table_of]. destruct (slookup n (t_fields t)) as [r|] eqn:E; [|congruence].
+    intros _. left. now exists n, mn, mx, r.
+  - intros H _. apply andb_prop in H. destruct H as [H1 H2]. right. exists n, r, mn, mx.
     split; [reflexivity|]. split; [now apply grefb_sound|]. intros r' E. rewrite E in H2.
     destruct r' as [i| | |]; try discriminate. now exists i.
 Qed.
@@ -96,9 +97,9 @@ Proof.
   apply andb_prop in K. destruct K as [H1 _]. apply andb_prop in H1. destruct H1 as [_ H1].
   apply grefb_sound. exact (proj1 (forallb_forall _ _) H1 (n, r) H).
 Qed.
-Lemma vt_segs n r : length n <= 3 -> slookup n (t_segments t) = Some r -> gseg t n r.
+Lemma vt_segs n r : length n <= 3 -> slookup n (t_segments t) = Some r -> seg_good t n r -> gseg t n r.
 Proof.
-  intros Hlen H. apply slookup_in in H. pose proof Hok as K. unfold vt_tables_ok in K. cbv zeta in K.
+  intros Hlen H [rows0 [Er0 [_ [_ Hgood]]]]. apply slookup_in in H. pose proof Hok as K. unfold vt_tables_ok in K. cbv zeta in K.
   apply andb_prop in K. destruct K as [_ H1]. pose proof (proj1 (forallb_forall _ _) H1 (n, r) H) as H1'.
   clear H1. rename H1' into H1.
   unfold gsegb in H1. cbn [fst snd] in H1. apply orb_prop in H1. destruct H1 as [H1|H1].
@@ -106,8 +107,9 @@ Proof.
   - destruct r as [i|i|[|] rows [i|]|]; try discriminate.
     repeat (apply andb_prop in H1; destruct H1 as [H1 ?H1]).
     exists rows. split; [reflexivity|]. split; [now apply Nat.eqb_eq|]. split; [assumption|].
-    intros row Hrow. apply frowb_sound.
-    match goal with X : forallb _ rows = true |- _ => exact (proj1 (forallb_forall _ _) X row Hrow) end.
+    injection Er0 as <-. intros row Hrow. apply frowb_sound.
+    + match goal with X : forallb _ rows = true |- _ => exact (proj1 (forallb_forall _ _) X row Hrow) end.
+    + destruct (Hgood row Hrow) as [fr [E _]]. congruence.
 Qed.
 End Checks.
 
@@ -127,7 +129,9 @@ Proof.
   pose proof (lookup_forallb (fun _ x => vt_tables_ok x) all_tables v t all_vt_tables_ok Ht) as Hok.
   cbv beta in Hok.
   split; [exact Hst|]. split; [exact Hvar|].
-  split; [exact (vt_fields t F Hok)|]. split; [exact (vt_comps t F Hok)|exact (vt_segs t F Hok)].
+  destruct (NoCrashTables.shipped_premises v t Ht) as [_ [_ [_ Hsg]]].
+  split; [exact (vt_fields t F Hok)|]. split; [exact (vt_comps t F Hok)|].
+  intros n r Hlen E. exact (vt_segs t F Hok n r Hlen E (Hsg n r Hlen E)).
 Qed.
 
 (* C15: for every shipped version, both validation levels, every delimiter set, ANY leaf function and
